@@ -12,6 +12,7 @@ import common as C
 
 WEIGHTS = {"table": 26, "plot": 20, "metrics": 24, "hyper": 8, "modelplot": 14, "add": 10, "delete": 5, "vis": 3, "fold": 4}
 MODE = {"render": True, "nodes": True, "format": True, "metrics": True}
+INIT = {"none": 36, "skops": 34, "custom": 24, "nosuch": 3, "clash": 3}
 
 CORPUS = [
     # D16 / D17 (repaired): nested table heading, second plot's alt text
@@ -27,6 +28,26 @@ CORPUS = [
      ["modelplot", " Model description / Training Procedure/Model Plot ", "", '.sk-top-container {}\n <div class="sk-top-container">'],
      ["modelplot", "A\\/B/ C", None, 'sk-top-\n  container\r\n\x1f\u2003x\n\u200b \n'],
      ["modelplot", "", "d", ""], ["modelplot", "A\\/B", " ", "\n"], ["select", "A\\/B/C"]],
+    # Card(model) with all defaults: the builders with their default sections replace template placeholders in place
+    [["init", "skops", "auto", [["C", 1.0], ["clf__alpha", None], ["é", "a\nb"]], '<div class="sk-top-container">\n  <p>\n x</p>\n</div>\n'],
+     ["metrics", "Model description/Evaluation Results", None, [["acc", 0.5], ["f1", "x"]]],
+     ["hyper", "Model description/Training Procedure/Hyperparameters", "params", [["C", 2.0]]],
+     ["modelplot", "Model description/Training Procedure/Model Plot", "The model", "<p>"],
+     ["table", None, False, [["Model description/Evaluation Results/Confusion", {"cols": [["a", [1, 2]]], "df": False}]]],
+     ["metrics", "Model description/Evaluation Results", "scores", [["acc", 0.75]]]],
+    # the skops template with model_diagram False / True / a section inside / outside the template / the empty section name
+    [["init", "skops", False, [], "<p>"], ["select", "Model description/Training Procedure/Model Plot"]],
+    [["init", "skops", True, [["tol", 100]], "sk-top-container\n sk-top-container"]],
+    [["init", "skops", "Model description/Training Procedure/Hyperparameters", [["C", 1]], "<p>"]],
+    [["init", "skops", " Diagrams / the\\/model ", [], "\n <p>"], ["select", "Diagrams/the\\/model"]],
+    [["init", "skops", "", [], "<p>"]],
+    # custom templates: empty dict, nested / escaped / colliding keys, diagram True (default path created), "auto" (none)
+    [["init", {"map": []}, True, [["C", 1]], "<p>"], ["hyper", "H", None, [["C", 1]]]],
+    [["init", {"map": [["A/B", "b"], [" A", "a"], ["A ", "again"], ["x\\/y/ z", ""]]}, "auto", [], "<p>"], ["select", "A"]],
+    [["init", {"map": [["Model description/Training Procedure/Model Plot", "mine"]]}, True, [], "<p>"]],
+    # the two exceptions
+    [["init", "", False, [], ""]], [["init", "Skops", "auto", [], ""]],
+    [["init", {"map": [["self", "x"]]}, True, [], "<p>"]], [["init", {"map": [["A", "a"], ["folded", "x"], ["B", "b"]]}, "B", [], "<p>"]],
 ]
 
 # real estimators through the unpatched sklearn function; the HTML text fed to the model is the one the implementation received
@@ -34,7 +55,11 @@ REAL = [
     [["realplot", "Model description/Training Procedure/Model Plot", None, "logreg"]],
     [["add", False, [["A/B/C", "x"]]], ["realplot", "A/B", "The pipeline", "pipeline"], ["select", "A/B"]],
     [["realplot", "P", "", "columntransformer"], ["realplot", " P ", "again", "pipeline-ct"]],
+    # Card(LogisticRegression()) / Card(Pipeline(...)) with every default: real get_params(deep=True) and real diagram
+    [["init", "skops", "auto", [], "", "logreg"], ["select", "Model description/Training Procedure/Hyperparameters"]],
+    [["init", "skops", True, [], "", "pipeline"]],
 ]
+REAL = [G.norm(s) for s in REAL]
 REAL_MODE = {"nodes": True, "render": True}
 
 
@@ -112,11 +137,13 @@ def real_model_plots(R):
         R.case(r["classes"] + [o[:3] for o in sq], nontrivial=all(c in ("ok", "sel") for c in r["classes"]))
         for o, mo, cls in zip(sq, r["ops"], r["classes"]):
             R.count(f"{o[0]}:{cls}")
-            if o[0] == "realplot":
-                html = mo[3]
+            if o[0] == "realplot" or (o[0] == "init" and o[5]):
+                html = mo[3] if o[0] == "realplot" else mo[4]
+                if o[0] == "init":
+                    R.notes.setdefault("real_init", []).append({"estimator": o[5], "get_params": len(mo[3]), "outcome": cls})
                 R.count(f"real-html sk-top-container x{html.count('sk-top-container')}")
                 R.notes.setdefault("real_html", []).append(
-                    {"estimator": o[3], "chars": len(html), "indentation_runs": len(re.findall(r"\n\s+", html)),
+                    {"estimator": o[3] if o[0] == "realplot" else o[5], "chars": len(html), "indentation_runs": len(re.findall(r"\n\s+", html)),
                      "class_name_occurrences": html.count("sk-top-container")})
                 if not html:
                     R.obligation_broken("C14 real estimators", f"estimator_html_repr was not called for {o}")
@@ -156,20 +183,23 @@ def whitespace_set(R):
 def run(R):
     R.assumptions += ["get_params(deep=True) is supplied by a stub model (its result is an input of the model)",
                       "DataFrame tables are abstracted to (column names, str() of the cells as iterated); pandas is used when importable",
-                      "cards are built from Card(model, template=None) through the public API",
+                      "cards are built by Card(model, template=None | str | dict of str -> str, model_diagram=bool | str) with a model object "
+                      "(not a path) and then the public API",
                       "str(estimator_html_repr(model)) is an input of the model (OAddModelPlot's html): generated text returned by a wrapper bound to "
                       "skops.card._model_card.estimator_html_repr in the runner process, or the text returned by the real sklearn function"]
     R.notes["rule"] = ("seeded random builder histories (tables: 0-3 columns, 0-3 rows, ragged, cells None/int/float/inf/bool/multi-line/unicode/'|', "
                        "dict or DataFrame; plots with/without alt text and description, empty path; metric updates; hyperparameters; model plots over HTML texts "
                        "with line feeds followed by all kinds of whitespace and look-alikes, CR LF, final LF, 0/1/2/split/doubled class names, non-BMP) on nested, "
-                       "escaped and blank-padded paths; render(), every node incl. format() and the metrics dict compared after every operation; "
+                       "escaped and blank-padded paths, starting from constructed cards (no template / the skops template / custom dicts / failing "
+                       "constructors; model_diagram False / True / 'auto' / section names); render(), every node incl. format() and the metrics "
+                       "dict compared after the constructor and after every operation; "
                        "plus batch-vs-one-by-one comparison on the implementation; real LogisticRegression/Pipeline/ColumnTransformer diagrams; "
                        "the \\s code point set of `re` against is_space over all code points")
     R.notes["guards"] = ["C14_batch_*: stated for calls in which every item is accepted (a rejected item stops the call: C14_batch_stops)"]
     R.notes["not_modelled"] = ["PrettyTable's column layout (oracle `pretty`; its inputs are compared exactly)", "sklearn get_params (oracle)",
                                "sklearn's estimator_html_repr (oracle: add_model_plot's processing of its text is modelled)",
                                "add_permutation_importances, add_fairlearn_metric_frame"]
-    G.run_property(R, "C14", WEIGHTS, MODE, 10, 400, 4000, extra_check=batch_check, corpus=CORPUS)
+    G.run_property(R, "C14", WEIGHTS, MODE, 10, 400, 4000, extra_check=batch_check, corpus=CORPUS, init_weights=INIT)
     real_model_plots(R)
     whitespace_set(R)
     dict_vs_dataframe(R)
